@@ -4,6 +4,10 @@
 package main
 
 import (
+	"strconv"
+	"runtime"
+	"sync/atomic"
+	"syscall"
 	"bufio"
 	"crypto/sha256"
 	"encoding/hex"
@@ -36,6 +40,7 @@ type Finding struct {
 	Unit    Unit   `json:"unit"` // history truncated to the failing step
 	Step    int    `json:"step"`
 	Key     string `json:"key"`
+	Runaway bool   `json:"runaway,omitempty"` // reported by the non-termination watchdog: confirmed by the parent in a fresh process
 }
 
 type WorkerOut struct {
@@ -83,8 +88,94 @@ func msgClass(m string) string {
 	return m
 }
 
+// ---- non-termination ----------------------------------------------------------
+// One Step is a handful of library calls on a finite batch. A step that burns
+// runawayCPU CPU-seconds (CPU time: independent of machine load), or pushes the
+// process past runawayMem, does not terminate: the worker cannot go on, so the
+// watchdog reports the unit as a violation of the property being checked.
+
+const runawayCPU = 60.0
+
+// runawayMem: per-process cap; the parent divides 48 GiB among its workers
+// (never below 4 GiB: the largest legitimate unit stays under 2 GiB), a replay runs alone with 20 GiB
+var runawayMem uint64 = 20 << 30
+
+func init() {
+	if v, err := strconv.Atoi(os.Getenv("STREAMMC_MEMCAP_MB")); err == nil && v > 0 {
+		runawayMem = uint64(v) << 20
+	}
+}
+
+var (
+	wdProp    string
+	wdSeq     atomic.Int64 // bumped at every case boundary
+	wdCur     atomic.Pointer[wdCase]
+	wdOnce    sync.Once
+	onRunaway func(f Finding, out *WorkerOut) // must exit
+)
+
+// wdCase: the case in progress, as the finding to report should it never return.
+type wdCase struct {
+	f   Finding
+	out *WorkerOut
+}
+
+func wdBegin(f Finding, out *WorkerOut) {
+	startUnitWatchdog()
+	wdCur.Store(&wdCase{f: f, out: out})
+	wdSeq.Add(1)
+}
+
+func wdEnd() {
+	wdCur.Store(nil)
+	wdSeq.Add(1)
+}
+
+func procCPU() float64 {
+	var ru syscall.Rusage
+	if syscall.Getrusage(syscall.RUSAGE_SELF, &ru) != nil {
+		return 0
+	}
+	return float64(ru.Utime.Sec+ru.Stime.Sec) + float64(ru.Utime.Usec+ru.Stime.Usec)/1e6
+}
+
+func startUnitWatchdog() {
+	wdOnce.Do(func() {
+		go func() {
+			last, cpu0 := int64(-1), procCPU()
+			for {
+				time.Sleep(250 * time.Millisecond)
+				c := wdCur.Load()
+				if n := wdSeq.Load(); n != last || c == nil {
+					last, cpu0 = n, procCPU()
+					continue
+				}
+				cpu := procCPU() - cpu0
+				var ms runtime.MemStats
+				runtime.ReadMemStats(&ms)
+				if cpu < runawayCPU && !(ms.Sys > runawayMem && cpu > 1) {
+					continue
+				}
+				what := "unbounded loop"
+				if ms.Sys > runawayMem {
+					what = "unbounded allocation"
+				}
+				f := c.f
+				f.Runaway = true
+				f.Msg = fmt.Sprintf("non-termination: this case does not return (%s in the library; a case is stopped after %.0f CPU-seconds or when the process exceeds its memory cap)", what, runawayCPU)
+				if onRunaway != nil {
+					onRunaway(f, c.out)
+				}
+				fmt.Fprintf(os.Stderr, "HARNESS-ERROR: %s\n", f.Msg)
+				os.Exit(2)
+			}
+		}()
+	})
+}
+
 func runUnits(units []Unit, shard, nshard int) *WorkerOut {
 	out := &WorkerOut{WireStates: map[string]bool{}, Events: map[string]int{}, Layers: map[string]int{}}
+	defer wdEnd()
 	seenNode := map[string]bool{}
 	seenFinding := map[string]bool{}
 	for idx, u := range units {
@@ -111,7 +202,11 @@ func runUnits(units []Unit, shard, nshard int) *WorkerOut {
 				out.States++
 			}
 			out.Transitions++
+			tu0 := u
+			tu0.History = u.History[:step+1]
+			wdBegin(Finding{Prop: wdProp, Unit: tu0, Step: step, Key: node}, out)
 			viol := st.Step(l)
+			wdEnd()
 			for _, v := range viol {
 				k := v.Prop + "|" + node + "|" + msgClass(v.Msg)
 				if seenFinding[k] {
@@ -205,6 +300,20 @@ func main() {
 	if *replay != "" {
 		os.Exit(doReplay(*replay))
 	}
+	wdProp = *prop
+	if *worker {
+		onRunaway = func(f Finding, out *WorkerOut) {
+			// the stuck goroutine is inside Step: out is not being written
+			out.Findings = append(out.Findings, f)
+			if out.Counters == nil {
+				out.Counters = map[string]int{}
+			}
+			out.Counters["shards_abandoned_on_non_termination"]++
+			b, _ := json.Marshal(out)
+			fmt.Println("RESULT " + string(b))
+			os.Exit(3)
+		}
+	}
 	if sw, ok := specialWorkers[*prop]; ok {
 		if *worker {
 			out := sw(*tier, *shard, *nshard)
@@ -220,6 +329,7 @@ func main() {
 		os.Exit(2)
 	}
 	units := plan(*tier)
+	wdProp = *prop
 	if *worker {
 		out := runUnits(units, *shard, *nshard)
 		if *prop == "C13" {
@@ -246,7 +356,15 @@ func doReplay(path string) int {
 		fmt.Fprintln(os.Stderr, "HARNESS-ERROR:", err)
 		return 2
 	}
+	wdProp = a.Property
+	onRunaway = func(f Finding, _ *WorkerOut) {
+		fmt.Printf("[%s] %s\n", f.Prop, f.Msg)
+		fmt.Printf("VIOLATION property=%s replay=%s\n", a.Property, path)
+		os.Exit(1)
+	}
 	if r, ok := specialReplays[a.Engine]; ok {
+		wdBegin(Finding{Prop: a.Property, Unit: a.Unit, Extra: a.Extra}, nil)
+		defer wdEnd()
 		return r(a, path)
 	}
 	out := runUnits([]Unit{a.Unit}, 0, 0)
@@ -285,7 +403,11 @@ func parent(prop, tier string, nunits int, evidence, replayDir, knownPath string
 		go func(i int) {
 			defer wg.Done()
 			cmd := exec.Command(self, "-worker", "-prop", prop, "-tier", tier, "-shard", fmt.Sprint(i), "-nshard", fmt.Sprint(n))
-			cmd.Env = append(os.Environ(), "GOMAXPROCS=2")
+			capMB := 48 * 1024 / n
+			if capMB < 4096 {
+				capMB = 4096
+			}
+			cmd.Env = append(os.Environ(), "GOMAXPROCS=2", fmt.Sprintf("STREAMMC_MEMCAP_MB=%d", capMB))
 			cmd.Stderr = os.Stderr
 			b, err := cmd.Output()
 			var o *WorkerOut
@@ -298,6 +420,9 @@ func parent(prop, tier string, nunits int, evidence, replayDir, knownPath string
 						o = nil
 					}
 				}
+			}
+			if ee, ok := err.(*exec.ExitError); ok && ee.ExitCode() == 3 && o != nil {
+				err = nil // the shard stopped at a non-terminating step and reported it
 			}
 			if err != nil || o == nil {
 				mu.Lock()
@@ -324,6 +449,7 @@ func report(prop, tier string, outs []*WorkerOut, evidence, replayDir, knownPath
 	known := loadKnown(knownPath)
 	tot := &WorkerOut{WireStates: map[string]bool{}, Events: map[string]int{}, Layers: map[string]int{}}
 	var findings []Finding
+	abandoned := 0
 	for _, o := range outs {
 		tot.Units += o.Units
 		tot.Transitions += o.Transitions
@@ -341,6 +467,7 @@ func report(prop, tier string, outs []*WorkerOut, evidence, replayDir, knownPath
 			tot.MaxDict = o.MaxDict
 		}
 		findings = append(findings, o.Findings...)
+		abandoned += o.Counters["shards_abandoned_on_non_termination"]
 		for _, s := range o.Samples {
 			if len(tot.Samples) < 4 {
 				tot.Samples = append(tot.Samples, s)
@@ -390,6 +517,16 @@ func report(prop, tier string, outs []*WorkerOut, evidence, replayDir, knownPath
 		}
 		b, _ := json.MarshalIndent(Artefact{Engine: eng, Property: prop, Message: f.Msg, Unit: f.Unit, Extra: f.Extra}, "", " ")
 		os.WriteFile(path, b, 0o644)
+		if f.Runaway {
+			// confirm in a fresh process running this unit alone (own CPU clock, 20 GiB cap)
+			self, _ := os.Executable()
+			c := exec.Command(self, "-replay", path)
+			c.Env = append(os.Environ(), "GOMAXPROCS=2", "STREAMMC_MEMCAP_MB=20480")
+			if e, ok := c.Run().(*exec.ExitError); !ok || e.ExitCode() != 1 {
+				fmt.Fprintf(os.Stderr, "HARNESS-ERROR: non-termination of %s did not reproduce in a fresh process\n", f.Key)
+				return 2
+			}
+		}
 		abs, _ := filepath.Abs(path)
 		violLines = append(violLines, fmt.Sprintf("VIOLATION property=%s replay=%s", prop, abs))
 		fmt.Printf("  [%s] %s\n", f.Key, trunc(f.Msg, 700))
@@ -420,7 +557,8 @@ func report(prop, tier string, outs []*WorkerOut, evidence, replayDir, knownPath
 			"observer_events":               tot.Events,
 			"max_dictionary_entries_seen":   tot.MaxDict,
 			"violation_classes":             classes,
-			"exhaustive":                    true,
+			"exhaustive":                    abandoned == 0,
+			"shards_abandoned_on_non_termination": abandoned,
 			"explanation":                   "explicit enumeration of (options, history) units over a fixed archetype alphabet on the real Producer/Consumer; states = distinct (options, history-prefix) nodes, transitions = encode(+decode) steps with all monitors evaluated, traces_validated_against_impl = histories executed on the implementation (no separate model)",
 		}
 		for k, v := range extraCov {
